@@ -31,7 +31,7 @@ Definition p2pk_spec (now msg : Z) (d : datat) (ts : list tag) (w : witness) : P
    (~ expired now pt /\
     exists pk, d = DKey (KGood pk) /\
     wit_sigs w <> [] /\ NoDupSigs (wit_sigs w) /\
-    ((0 < pt_nsigs pt /\ pt_pubkeys pt <> [] /\
+    ((0 < pt_nsigs pt /\
       pt_nsigs pt <= n_signers msg (wit_sigs w) (pk :: pt_pubkeys pt)) \/
      (pt_nsigs pt <= 0 /\ 1 <= n_signers msg (wit_sigs w) [pk])))).
 
@@ -165,10 +165,9 @@ Proof.
       exists pk. split; [reflexivity|].
       destruct (0 <? pt_nsigs pt) eqn:En.
       * apply Z.ltb_lt in En.
-        destruct (is_nil (pt_pubkeys pt)) eqn:Ek; [discriminate|].
         destruct (is_nil (wit_sigs w)) eqn:Es; [discriminate|].
         destruct (dup_sigs (wit_sigs w)) eqn:Ed; [discriminate|].
-        apply is_nil_false in Ek, Es. apply has_valid_sigs_spec in H.
+        apply is_nil_false in Es. apply has_valid_sigs_spec in H.
         split; [exact Es|]. split; [exact Ed|]. left. repeat split; assumption.
       * apply Z.ltb_ge in En.
         destruct (is_nil (wit_sigs w)) eqn:Es; [discriminate|].
@@ -177,8 +176,8 @@ Proof.
         split; [exact Es|]. split; [exact Ed|]. right. split; assumption.
     + intros [pt' [Hp [[He _]|[_ [pk [Hd [Hs [Hdup Hc]]]]]]]]; inversion Hp; subst pt'; [contradiction|].
       subst d. apply is_nil_false in Hs. unfold NoDupSigs in Hdup.
-      destruct Hc as [[Hn [Hk Hc]]|[Hn Hc]].
-      * apply Z.ltb_lt in Hn. rewrite Hn. apply is_nil_false in Hk. rewrite Hk, Hs, Hdup.
+      destruct Hc as [[Hn Hc]|[Hn Hc]].
+      * apply Z.ltb_lt in Hn. rewrite Hn. rewrite Hs, Hdup.
         apply has_valid_sigs_spec. exact Hc.
       * apply Z.ltb_ge in Hn. rewrite Hn, Hs, Hdup. apply has_valid_sigs_spec. exact Hc.
 Qed.
@@ -342,16 +341,16 @@ Qed.
 Theorem helper_p2pk_input_accepted now pk nonce i ts pt :
   in_secret i = SNut10 KP2PK (DKey (KGood pk)) ts ->
   parse_tags ts = Some pt -> ~ expired now pt ->
-  (pt_nsigs pt <= 1) -> (0 < pt_nsigs pt -> pt_pubkeys pt <> []) ->
+  (pt_nsigs pt <= 1) ->
   let i' := helper_p2pk_input pk nonce i in
   verify_condition now (in_msg i') (in_secret i') (in_wit i') = true.
 Proof.
-  intros Hs Hp Hne Hn Hk i'. unfold i', helper_p2pk_input. cbn [in_msg in_secret in_wit].
+  intros Hs Hp Hne Hn i'. unfold i', helper_p2pk_input. cbn [in_msg in_secret in_wit].
   rewrite Hs. cbn [verify_condition]. apply verify_p2pk_iff. exists pt. split; [exact Hp|].
   right. split; [exact Hne|]. exists pk. split; [reflexivity|]. cbn [wit_sigs].
   split; [discriminate|]. split; [reflexivity|].
   destruct (Z_lt_dec 0 (pt_nsigs pt)) as [Hpos|Hnp].
-  - left. split; [exact Hpos|]. split; [apply Hk; exact Hpos|].
+  - left. split; [exact Hpos|].
     etransitivity; [exact Hn|]. apply n_signers_single. left; reflexivity.
   - right. split; [lia|]. apply n_signers_single. left; reflexivity.
 Qed.
